@@ -1,6 +1,6 @@
 (* C02 — accepted input yields one well-formed single-line expression (the part carried by theorems). *)
 From Coq Require Import String List NArith ZArith Bool.
-From OL Require Import PyAst Unparse StrLit SingleLine Parse ParseProof ParseTie.
+From OL Require Import PyAst Unparse StrLit SingleLine Namespace Lower KSem KSim Parse ParseProof ParseTie StmtOk StmtCore.
 From OLGen Require Import Tables.
 Import ListNotations.
 
@@ -22,3 +22,39 @@ Theorem C02_core_output_is_one_expression_partial : forall e, core_top e = true 
   exists f0, forall f, f0 <= f -> pc f (MExpr slot_top) (norm (unparse_toks e)) = Some (e, []).
 Proof. exact roundtrip_unparser_core_top. Qed.
 Print Assumptions C02_core_output_is_one_expression_partial.
+
+(* "Exactly one expression" for WHOLE PROGRAMS: for EVERY program of the modelled fragment - any statements (if / while / for
+   with else, break / continue / return, assignments with nested and starred patterns, slices, augmented assignments, imports,
+   function and class definitions with decorators, defaults, keywords), any nesting, any size, both wrappers, both if styles -
+   whose own expressions lie in the core (stmt_ok: decidable, evaluated on every explored program, see the evidence), if the
+   converter model returns an expression then the tokens of the text the unparser model prints for it are read back by the
+   expression parser as exactly that expression with nothing left over.  (Statement layer: StmtCore.lower_stmt_ok, by induction
+   over statements; expression layer: LowerCore; printer = unparser: ParseTie; parser inverts printer: ParseProof.)
+   Outside: f-strings in the source (not in the core), and what CPython's COMPILER adds to its grammar (a walrus inside a
+   comprehension iterable parses but does not compile: known finding K-walrus-loop-header). *)
+Theorem C02_module_output_is_one_expression : forall cfg root body e,
+  forallb stmt_ok body = true -> lower_module cfg root body = inl e ->
+  exists f0, forall f, f0 <= f -> pc f (MExpr slot_top) (norm (unparse_toks e)) = Some (e, []).
+Proof. exact module_output_is_one_expression. Qed.
+Print Assumptions C02_module_output_is_one_expression.
+
+Definition c02_example_program : list stmt :=
+  [SAssign [Name "x"] (Constant (CInt 0));
+   SWhile (Compare (Name "x") [Lt] [Constant (CInt 3)])
+     [SAugAssign (Name "x") Add (Constant (CInt 1));
+      SIf (Compare (Name "x") [Eq] [Constant (CInt 2)]) [SBreak] [];
+      SAugAssign (Subscript (Name "d") (Slice (Some (Constant (CInt 1))) None None)) Add (EList [Name "x"])]
+     [SAssign [Name "y"; Attribute (Name "o") "a"] (Subscript (EList [Name "x"; UnaryOp USub (Constant (CInt 1))]) (Constant (CInt 0)))];
+   SFor (ETuple [Name "a"; ETuple [Name "b"; Starred (Name "c")]]) (Call (Name "it") [] [])
+     [SExpr (Call (Name "print") [Name "a"; Starred (Name "c")] [(Some "sep", Constant (CStr []))]);
+      SIf (BoolOp And [Name "a"; Name "b"]) [SContinue] [SPass];
+      SAssign [Subscript (Name "m") (ETuple [Slice None None None; Constant (CInt 0)])] (Lambda [] ["q"] None [] [] None [Name "a"] (Name "q"))]
+     [];
+   SImport [("os.path", None); ("json", Some "J")];
+   SImportFrom (Some "os") [("sep", None); ("path", Some "P")] 0]%string.
+
+Example C02_module_nonvacuous :
+  forallb stmt_ok c02_example_program = true /\
+  (exists e, lower_module (mkCfg true false false) top_symtab c02_example_program = inl e) /\
+  (exists e, lower_module (mkCfg false true false) top_symtab c02_example_program = inl e).
+Proof. split; [vm_compute; reflexivity|]. split; eexists; vm_compute; reflexivity. Qed.
